@@ -24,6 +24,12 @@ class Undecided(Exception):
         self.node = node
 
 
+class LooseEquality(Undecided):
+    """An equality between two times / values is decided by a relative- or wide-tolerance test (numpy.isclose,
+    math.isclose, allclose): not an ordering fact - values a whole tolerance apart count as equal.  Rules that
+    evaluate predicates on orderings report this as a violation of the convention they check."""
+
+
 @dataclass
 class FunctionInfo:
     qualname: str
